@@ -11,4 +11,9 @@ open Strengths.Gen.PyIdioms
 and reads dictionaries by key) -/
 theorem rdspace_value_semantic : valueSemantic inv_rdspace = true := by decide +kernel
 
+/-- `rdspace.py` never aliases an array on purpose: no `np.asarray`, `np.frombuffer`, `.view(…)`, `memoryview` — what a function
+returns is a fresh object (the model's values are immutable; this is the source fact that lets mutation of a returned
+object be ignored) -/
+theorem rdspace_no_views : views_rdspace = [] := by decide +kernel
+
 end Strengths.PyIdioms
